@@ -98,6 +98,22 @@ def search(ctx):
             check('held-then-far-frequency:' + d.name, fr, hi + 1)
             check('held-then-far-frequency:' + d.name, fr, max(1, lo - 1))
         d.frequency_tolerance = 2
+        # tolerance narrowed between two decodes at the SAME frequency with the SAME enabled set (a cached
+        # frequency filter would keep the stale answer; seed C10d): wide tolerance, press at an off-nominal
+        # carrier, narrow, same frame (held-key shortcut) and again after the release (main loop)
+        for company in (set(), set(x for x, _ in r.sample(good, 3))):
+            fresh_state(); set_enabled({d} | company)
+            d.frequency_tolerance = 10
+            f_off = nominal - int(nominal * 0.07)
+            check('tolerance-wide-press:' + d.name, fr, f_off)
+            for narrow in (2, 0):
+                d.frequency_tolerance = narrow
+                check('tolerance-narrowed:' + d.name, fr, f_off)
+            for dd in decs:
+                dd._last_code = None
+            env.clock.advance(2000)
+            check('tolerance-narrowed-after-release:' + d.name, fr, f_off)
+            d.frequency_tolerance = 2
     # random subsets x frames of every good protocol
     for _ in range(150 if not ctx.thorough else 1500):
         fresh_state()
@@ -126,7 +142,7 @@ def search(ctx):
                 ctx.violation('pyIRDecoder.' + helper, 'enabled-set-changed', 'disabled behind the caller: %s' % sorted(set(before) - set(after)),
                               dict(helper=helper), input=dict(pronto=pr[:80]))
                 set_enabled(all_on)
-    ctx.sample({'scenario': 'singleton/cosingleton/held-then-disabled/held-then-far-frequency/subset', 'protocols_with_decodable_frames': len(good)})
+    ctx.sample({'scenario': 'singleton/cosingleton/held-then-disabled/held-then-far-frequency/tolerance-narrowed/subset', 'protocols_with_decodable_frames': len(good)})
     set_enabled(all_on)
     for d in decs:
         d.frequency_tolerance = 2
@@ -137,7 +153,7 @@ def check(ctx):
     ctx.rule = ('correspondence: random sessions of the REAL FakeModule._decode with scripted stub decoders vs the Lean model '
                 '(ops disp_dec/disp_beh/disp_decode/disp_enable/disp_ftol/disp_release; frequencies at the exact window edges +-1, '
                 'tolerances 0,1,2,2.5,5,20 %); search: real decoders, each singleton / co-singleton / held-key-then-disabled / '
-                'held-key-then-incompatible-frequency / random subsets, frequencies {0, nominal, window edges +-1, far}, frequency_tolerance {0,2,2.5,5}; '
+                'held-key-then-incompatible-frequency / tolerance-narrowed-between-decodes (same frequency, same enabled set) / random subsets, frequencies {0, nominal, window edges +-1, far}, frequency_tolerance {0,2,2.5,5}; '
                 'oracle = returned code and every decode-callback argument comes from an enabled decoder whose integer window contains f; '
                 'helper entry points leave enabled_decoders unchanged. non-trivial = a code was returned')
     vlib.prove(ctx, MODULES)
